@@ -58,6 +58,11 @@ DESIGN_MC = {
     "C04": [("EncoderSeq.tla", "EncoderSeq.cfg", "EncoderSeq: InfoBounds over every length 0..10 (BS=3, MinBS=2)")],
     "C09": [("EncoderChoice.tla", "EncoderChoice.cfg", "EncoderChoice: the subframe / stereo decision rules never exceed verbatim / independent, pick a minimum, are monotone in the switches (all sizes 0..6)"),
             ("EncoderChoice.tla", "EncoderLadder.cfg", "EncoderChoice: the ladder law of the fixed-predictor order selection holds for every cost assignment (sizes 0..3)")],
+    # the parameter search of src/rice.rs as written (clamped tables, packed minimiser, merge without re-clamp) against the
+    # brute-force meaning, for EVERY input of a scaled-down scope
+    "C13": [("RiceSearch.tla", "RiceSearch_small.cfg", "RiceSearch (MP=1, sizes 1..4, 5 values): FinestAgrees, EmittedOptimal, BitsHonest, NeverBelowTruth, TieRule, Separable (true brute force)"),
+            ("RiceSearch.tla", "RiceSearch_q.cfg", "RiceSearch (MP=2, sizes 2..8, 2 values, warm-up 0..3, max parameter 0..3): the same invariants"),
+            ("RiceSearch.tla", "RiceSearch.cfg", "RiceSearch (MP=2, sizes 2..8, 4 values: 371 704 inputs): the same invariants", "thorough")],
 }
 
 
@@ -165,7 +170,10 @@ def check_stream(prop, tier, seed, only=None, outdir=None, props=None, accept=No
     mc_states = mc_trans = 0
     mc_runs = []
     if not only and props is None:
-        for mod, cfg, what in DESIGN_MC.get(prop, []):
+        for entry in DESIGN_MC.get(prop, []):
+            mod, cfg, what = entry[:3]
+            if len(entry) > 3 and entry[3] != tier:
+                continue
             r = vlib.run_tlc(mod, cfg, tag=f"{prop}mc{mod[:6]}", workers=4, xmx="4g", timeout=1200)
             tlc_ok(r, what)
             mc_states += r["states"]
@@ -202,6 +210,16 @@ def check_stream(prop, tier, seed, only=None, outdir=None, props=None, accept=No
             replay=dict(property=prop, kind="stream", case=cid, seed=seed, tier=tier, harness_args=args,
                         conjuncts=mine, case_header=case),
             trace_lines=lines, name=cid))
+    # conformance beyond the listed property: which of several optimal Rice codings is emitted (RiceSearch!TieRule).
+    # Not a violation of C13: MODEL-DIVERGENCE lines, exit code unaffected.
+    tie_div = 0
+    if prop == "C13":
+        for cid, (v, msgs) in sorted(verdicts.items()):
+            md = [m for m in msgs if m.startswith("MD13:")]
+            if md:
+                tie_div += 1
+                if tie_div <= 5:
+                    print(f"MODEL-DIVERGENCE property=C13 rice-tie-rule case={cid} {md[0][:300]}")
     res.coverage = dict(
         states=states + mc_states, transitions=trans + mc_trans, traces_validated_against_impl=accepted,
         design_level_model_checking=mc_runs,
@@ -213,6 +231,9 @@ def check_stream(prop, tier, seed, only=None, outdir=None, props=None, accept=No
         subframe_kinds_and_channel_assignments_seen=summary["kinds"], outcomes=summary["outcomes"],
         samples=summary["samples"],
         checker_cmd="tlc -workers 1 -config TraceStream.cfg TraceStream.tla (one JVM per NDJSON shard, env TRACE)")
+    if prop == "C13":
+        res.coverage["rice_tie_rule_conformance"] = dict(cases_with_divergence=tie_div,
+            what="every emitted residual's partition order and parameters equal the prediction of the search model (finest order, smallest parameter among equal costs)")
     if prop == "C01" and not only and props is None:
         tlaps_lemmas(res)
     if prop == "C09" and not only and props is None:
@@ -900,6 +921,8 @@ def check_c02(prop, tier, seed):
     res.coverage["frame_numbers_checked"] = summ["frame_numbers"]
     res.coverage["evaluations"] += summ["events"]
     res.coverage["distinct_nontrivial"] += summ["events"]
+    # streams assembled through the component-level API (extra metadata blocks): the chain of last-block flags
+    builder_conformance(prop, tier, seed, res)
     res.coverage["rule"] += ("; plus the finite header code spaces through encode_fixed_size_frame: EVERY block length 1..=32767, EVERY sample rate "
                              "1..=96000, frame numbers = all of 0..69631, +-64 (thorough: +-4096) around every 2^k up to 2^31, and 20 000 "
                              "(thorough: 500 000) stratified random values below 2^31 - not all 2^31 (stated limitation); every event distinct")
